@@ -20,7 +20,9 @@ Definition patch (base delta : bytes) : option bytes :=
   let '(bs, o1) := decode_header_size delta in
   let rest := skipn (N.to_nat o1) delta in
   let '(rs, o2) := decode_header_size rest in
-  if varint_ends delta && varint_ends rest && (bs =? len base) then
+  (* both sizes 0: no instruction can be valid and the delta would be shorter than DELTA_SIZE_MIN;
+     git never writes it (gix panics on it, see Properties.decode_empty_delta_panics) *)
+  if varint_ends delta && varint_ends rest && (bs =? len base) && negb ((bs =? 0) && (rs =? 0)) then
     match apply base (N.to_nat rs) (skipn (N.to_nat o2) rest) with
     | Ok w => Some w
     | _ => None
